@@ -7,7 +7,7 @@ CHECKS = {
         text="Queue.tla explores every interleaving of one producer and one consumer at statement granularity (Lossless, DepthIsLen, "
              "NoPanic, token protocol, termination). QueueSeq.tla enumerates every sequential history up to a bound with the abstract results "
              "and the harness replays each on util.Queue comparing every return value. Histories recorded from two real goroutines under the race "
-             "detector and several GOMAXPROCS values are checked for linearizability against the same abstraction by QueueTrace.tla.",
+             "detector and several GOMAXPROCS values are checked for linearizability against the same abstraction by QueueTrace.tla. Added in round 6: the queue as the channel's read loop feeds it (producer far ahead of the consumer, Read and ReadAll) from a transport that hands out the same buffer on every Read (vh c20chan).",
         note="Trusted: TLC, the Go race detector, the mutex-ordered event log as real-time order. Bounds: 3 produced chunks x 5-6 consumer ops in the "
              "statement model; sequential histories of length 5 (quick) / 7 (thorough); 24 / 120 recorded concurrent histories."),
 }
@@ -39,7 +39,7 @@ CHECKS["C02"] = dict(
          "payload and partition and enumerates all raw strings <= 6-7 symbols and all single-symbol edits (delete, insert, replace, truncate) of all legal frames of payloads <= 3-4. "
          "The harness feeds each to the public Record with poisoned spare capacity: no panic, no byte that is not in the input, legal => exact payload and not failed, malformed => failed. "
          "NcReplyScn.tla generates replies (multi-byte runes, '#', digits, newlines, rpc-error markers cut by chunk boundaries, XML declaration) that go through a server model and "
-         "netconf.Driver.Get under several read segmentations; Result and Failed are compared with the prediction.",
+         "netconf.Driver.Get under several read segmentations; Result and Failed are compared with the prediction. Added in round 6: a first chunk that ends inside the XML declaration; the known-finding class (a line '##' in view at a read boundary) is decided on the reads that really happened, so a payload line that merely starts with '##' is judged like any other.",
     note="Trusted: TLC, the server model's framing. Byte classes limit chunk sizes to <= 22 in the exhaustive tier. Two genuine defects were repaired (fix: commits 9d3f9ee, 28b8a29); "
          "the read loop's '^##$' delimiter weakness is a recorded known finding.")
 CHECKS["C05"] = dict(
@@ -58,7 +58,7 @@ CHECKS["C06"] = dict(
               "operations in isolated child processes so that a panic in a library goroutine is observed and attributed",
     text="Same specification as C05 with the connection lost at byte k: the operation in flight ends with an error (never a timeout, never a partial success), for every cut. The harness makes the "
          "scripted transport return io.EOF or a persistent error from byte k on (with writes failing, or still accepted as on a half-closed connection), or fail writes, for every standard operation; it "
-         "checks prompt error (< 1 s with a 4 s timeout), later operations failing fast, completeness of any success, and process survival (each scenario runs in a child process).",
+         "checks prompt error (< 1 s with a 4 s timeout), later operations failing fast, completeness of any success, and process survival (each scenario runs in a child process). Added in rounds 6-7: the built-in telnet and standard transports with a peer that closes the connection while idle / while an operation waits (vh c06real, one process per scenario); one lost session in three is opened again without a Close in between (Reopen.tla OpenOnOpen); help output whose lines end like a prompt with every byte a loss point.",
     note="Trusted: TLC, the loss model of the scripted transport. Sessions are not closed after a loss here (closing in those states is C07). One genuine defect found and repaired (31f9756).")
 CHECKS["C07"] = dict(
     category="model_checking", design_ref="DESIGN.md §5 C07, §12",
@@ -90,7 +90,7 @@ CHECKS["C09"] = dict(
     text="All 1296 combinations of advertised base versions x preferred version x hello layout (pretty, single line, with declaration) x namespace prefix x extra capabilities (incl. URNs that only contain "
          "a base capability as a substring) x session-id (none, small, 2^32-1) x echoing transport are generated by TLC with the predicted outcome. The harness checks Open's error class, the transport "
          "being closed on failure, SelectedVersion, ServerCapabilities(), SessionID(), the client's hello as received (exactly one, end-of-message framing, exactly base:<selected>), and that the first RPC "
-         "and its reply use the selected framing.",
+         "and its reply use the selected framing. Added in round 6: namespace prefixes with digits, underscore and capitals; hello layout 'wrapped' (the text of every capability on a line of its own - found a genuine defect, fix 9947d75).",
     note="Trusted: TLC, the server model. Exhaustive over the stated dimensions; 1 (quick) / 3 (thorough) read segmentations per scenario. One genuine defect repaired (prefixed session-id).")
 CHECKS["C08"] = dict(
     category="model_checking", design_ref="DESIGN.md §5 C08, §11",
@@ -191,7 +191,7 @@ CHECKS["C19"] = dict(
     text="35 option functions x 2 value variants, lists of 1-8 user options preceded by 0-3 options of a platform definition's options block (written into a real YAML definition for the platform "
          "constructor). For every constructor and every setting it exposes (transport args, ssh args, system transport fields, channel fields, generic/network/NETCONF driver fields, logger identity) the "
          "harness maps the constructed objects back to option tags and compares with Fold: last one wins, extra ssh arguments accumulate in order, untouched settings keep their defaults, user beats platform, "
-         "no error for options that do not apply, no panic.",
+         "no error for options that do not apply, no panic. Added in round 6: Options!EdgeScn - a port that is another transport's default (22, 23, 830) or the largest one, with every built-in transport type, the two options in both orders, through all constructors.",
     note="Trusted: TLC; the reflection of real field values into tags. 500 (quick) / 4000 (thorough) lists x 4 constructors. Two genuine defects repaired (YAML list for transport-system-open-args panicked; "
          "logger not reaching netconf.Driver).")
 PENDING_REASON = "check not built yet in this session (work in progress; see DESIGN.md §5 for the planned TLA+ specification and binding)"
